@@ -123,6 +123,7 @@ def units(tier, seed):
     for k in range(n):
         us.append({"kind": "stan", "warmups": ws[k::n], "posterior": list(g["posterior"]), "itb": list(g["itb"]), "thin": list(g["thin"])})
     us.append({"kind": "stan-edge"})
+    us.append({"kind": "stan-history", "length": 4 if q else 5})
     # builder
     nb = 8 if q else 16
     for k in range(nb):
@@ -387,6 +388,23 @@ def run_interleave(unit, res):
                         ok = False
                         break
             if ok:
+                # every config that would make the schedule invalid must still be refused here, whatever
+                # has been handed out so far (a rejected append leaves the manager as it was: drained below)
+                for a in alpha:
+                    if ref.valid(ts + (a,)):
+                        continue
+                    res.transitions += 1
+                    try:
+                        m.append(obj[a])
+                    except Exception:
+                        continue
+                    sig = "invalid-append-accepted-after-next"
+                    if sig not in seen_v:
+                        seen_v.add(sig)
+                        res.violation("interleave", sig, {**case, "appended": list(a)}, f"schedule {ts} after ops {''.join(w)}: append of {a} accepted although {ts + (a,)} is not a valid schedule")
+                    ok = False
+                    break
+            if ok:
                 _drain(res, m, clock, case, "interleave")
     res.note([unit, len(scheds)])
     res.extra["interleave_valid_schedules"] = len(scheds)
@@ -502,6 +520,61 @@ def run_stan_edge(unit, res):
     res.note([n, sorted(res.outcomes)])
 
 
+def run_stan_history(unit, res):
+    """Every word of the stated length over {call with one of three argument tuples, mutate the most
+    recently returned schedule in place (append / delete / lengthen / clear)}: what a call returns is
+    the documented schedule of ITS arguments whatever happened to earlier return values."""
+    EpochConfig, EpochManager, EpochType, stan_epochs = _liesel()
+    ARGS = {"A": (40, 10, 5, 5, 5, 1, 1), "B": (60, 12, 10, 10, 10, 2, 1), "C": (40, 10, 5, 5, 5, 1, 1)}  # C repeats A's arguments
+    names = ("warmup_duration", "posterior_duration", "init_duration", "term_duration", "base_duration", "thinning_posterior", "thinning_warmup")
+
+    def mutate(kind, eps):
+        if kind == "append":
+            eps.append(EpochConfig(EpochType.POSTERIOR, 5, 1, None))
+        elif kind == "delete":
+            del eps[1]
+        elif kind == "lengthen":
+            eps[2].duration += 3
+        elif kind == "clear":
+            eps.clear()
+
+    ops = list(ARGS) + ["append", "delete", "lengthen", "clear"]
+    seen_v = set()
+    for L in range(1, unit["length"] + 1):
+        for word in itertools.product(ops, repeat=L):
+            if word[-1] not in ARGS or word[0] not in ARGS:
+                continue
+            res.executions += 1
+            last = None
+            for pos, op in enumerate(word):
+                res.transitions += 1
+                if op in ARGS:
+                    try:
+                        last = stan_epochs(**dict(zip(names, ARGS[op])))
+                    except Exception as e:
+                        if "raises" not in seen_v:
+                            seen_v.add("raises")
+                            res.violation("stan-history", "raises", {"word": list(word), "pos": pos}, f"stan_epochs{ARGS[op]} raised {_msg(e)} after {word[:pos]}")
+                        break
+                    got = [_as_tuple(c) for c in last]
+                    want = ref.stan_schedule(*ARGS[op])
+                    res.outcome("stan-history", "call", op, "after-mutation" if any(o not in ARGS for o in word[:pos]) else "plain")
+                    if got != [tuple(x) for x in want]:
+                        sig = "depends-on-earlier-return-values"
+                        if sig not in seen_v:
+                            seen_v.add(sig)
+                            res.violation("stan-history", sig, {"word": list(word), "pos": pos}, f"after {list(word[:pos])} stan_epochs{ARGS[op]} returned {got}, documented schedule is {want}")
+                        break
+                else:
+                    try:
+                        mutate(op, last)
+                    except (IndexError, AttributeError):
+                        pass
+    res.states += len(ops)
+    res.note(["stan-history", unit["length"], res.executions])
+    res.sample({"kind": "stan-history", "words": res.executions})
+
+
 # ---------------------------------------------------------------------------------
 # builder: chunk length divides every duration
 # ---------------------------------------------------------------------------------
@@ -536,6 +609,11 @@ def builder_cases(tier):
             cases.append(("schedule", ((0, 1, 1), (1, a, 1), (4, b, 1))))
     for a, b, c in itertools.product((4, 6, 10, 12, 15, 50), repeat=3):
         cases.append(("schedule", ((0, 1, 1), (3, a, 2), (2, b, 1), (4, c, c))))
+    # warmup epochs whose thinning does not divide their duration (allowed: only posterior epochs need it)
+    for a in (7, 9, 10, 15, 17, 20, 25, 50):
+        for th in (2, 3, 4, 5, 6, 7):
+            for b in (3, 6, 9, 10, 12, 50):
+                cases.append(("schedule", ((0, 1, 1), (1 + (a + th) % 3, a, th), (4, b, 1))))
     itbs = [(1, 1, 1), (2, 5, 2), (5, 5, 5), (25, 50, 25), (75, 50, 25), (50, 25, 50), (100, 100, 100)]
     ws = range(20, 401) if q else range(20, 801)
     for w in ws:
@@ -547,8 +625,9 @@ def builder_cases(tier):
         for p in (6, 100):
             for t in (3, 10, 50):
                 for tp in (1, 2):
-                    for tw in (1, 3):
-                        cases.append(("set_duration", (w, p, t, tp, tw)))
+                    for tw in (1, 3, 4, 7):
+                        if ref.stan_admissible(w, p, 75, t, 25, tp, tw):
+                            cases.append(("set_duration", (w, p, t, tp, tw)))
     return cases
 
 
@@ -664,6 +743,8 @@ RUN_SCHEDULES = [
     ("schedule", ((0, 1, 1), (2, 8, 3), (3, 12, 4), (4, 20, 2))),
     ("set_duration", (150, 50, 50, 2, 1)),
     ("stan", (77, 1, 25, 25, 25, 1, 5)),
+    ("schedule", ((0, 1, 1), (1, 17, 5), (4, 9, 1))),
+    ("set_duration", (200, 60, 50, 1, 4)),
 ]
 
 
@@ -731,6 +812,8 @@ def run_unit(unit):
         run_stan(unit, res)
     elif kind == "stan-edge":
         run_stan_edge(unit, res)
+    elif kind == "stan-history":
+        run_stan_history(unit, res)
     elif kind == "builder":
         run_builder(unit, res)
     elif kind == "builder-run":
